@@ -74,13 +74,15 @@ HighCfgs(shape) ==
 
 \* ---- empty family: tensors with a zero-length mode (an empty batch).  Nothing to lay out, but the result must exist and have
 \* the documented shape, and the fold must give back the (empty) tensor of the original shape.
-EmptyShapes == IF WithEmpty THEN {<<0, 3>>, <<3, 0>>, <<2, 0, 3>>, <<0, 2, 2>>, <<2, 3, 0>>, <<2, 0, 2, 2>>} ELSE {}
+\* ... and the order-0 tensor (a scalar held in an array, shape <<>>): it has one entry and no mode, so only the vectorisation applies
+EmptyShapes == IF WithEmpty THEN {<<>>, <<0, 3>>, <<3, 0>>, <<2, 0, 3>>, <<0, 2, 2>>, <<2, 3, 0>>, <<2, 0, 2, 2>>} ELSE {}
 EmptyCfgs(shape) ==
     \* (unfold / partial_unfold write the column count as -1, which NumPy cannot infer for an empty array: the unchanged
     \*  library refuses those; matricize and the vectorisations state every size explicitly and are total)
     LET N == Len(shape) IN
          {[op |-> "vec", shape |-> shape]}
-    \cup UNION {{[op |-> "matricize", shape |-> shape, rows |-> SortedSeq(R), cols |-> SortedSeq(Modes(shape) \ R), colsgiven |-> g] : g \in BOOLEAN}
+    \cup IF N = 0 THEN {} ELSE
+         UNION {{[op |-> "matricize", shape |-> shape, rows |-> SortedSeq(R), cols |-> SortedSeq(Modes(shape) \ R), colsgiven |-> g] : g \in BOOLEAN}
                  : R \in {{0}, {N - 1}, 0..(N - 2)}}
 
 AllConfigs(dummy) == {c \in UNION {Cfgs(s) : s \in Shapes} : ValidCfg(c)}
